@@ -108,3 +108,24 @@ func ReencodeRepeatedCreatedHeight(tx []byte, createdHeight uint64) []byte {
 	}
 	return append(out, byte(v))
 }
+
+// CertificateResultsTx builds the transaction with which a nested chain reports a certificate to the
+// root chain: a QuorumCertificate for (chainId, nestedHeight, rootHeight) without block, signed over
+// its real SignBytes by the chosen members (see signerKey) of the nested committee as the node nd
+// derives it at rootHeight, wrapped in MessageCertificateResults and signed by the proposer (whose
+// address is the only authorized signer). Fee 0 is the default certificateResults fee.
+func (n *Network) CertificateResultsTx(nd *Node, chainId, nestedHeight, rootHeight uint64, proposer int, signers []int, results *lib.CertificateResult, createdHeight uint64) []byte {
+	nd.enter()
+	vs, err := nd.C.FSM.LoadCommittee(chainId, rootHeight)
+	if err != nil {
+		panic(err)
+	}
+	pk := n.signerKey(proposer)
+	qc := &lib.QuorumCertificate{
+		Header:  &lib.View{Height: nestedHeight, RootHeight: rootHeight, NetworkId: NetworkId, ChainId: chainId},
+		Results: results, ResultsHash: results.Hash(), BlockHash: detKeyBytes(n.Seed, "nested-block", int(nestedHeight)),
+		ProposerKey: pk.PublicKey().Bytes(),
+	}
+	qc.Signature = n.Aggregate(vs, qc.SignBytes(), signers)
+	return n.Tx(pk, &fsm.MessageCertificateResults{Qc: qc}, 0, createdHeight, "")
+}
